@@ -24,6 +24,20 @@ Two drivers: (a) real execution on in-memory SQLite, every statement built twice
 (the second execution takes the compiled-cache + _adapt_to_context path); (b) a stub cursor: CursorResult over a
 FullyBufferedCursorFetchStrategy whose description replays the *compiled* rendered names (de-normalised for dialects that
 require it) for statements compiled by the PostgreSQL / Oracle / MSSQL / MySQL / SQLite dialect objects, no database.
+
+Wide shapes - cursor.description has MORE columns than the compiled statement lists (the contract is the same, the ghost
+state is per *result* position):
+  * frag_first / frag_last: a textual fragment that the database expands to several columns - literal_column("*"), text("*"),
+    literal_column("a.*"), text("b.*"), text("a.id, b.id, b.x AS y"), literal_column("b.a_id, a.y AS a_id") - before / after a
+    select list of 0..2 (thorough: 0..3) pool expressions over a JOIN b, all label styles.  Positions produced by the fragment
+    have no key object.  Such statements are matched to the cursor BY NAME (documented for textual columns), so an object
+    key denotes every position carrying the name that was rendered for it: P(E_i) = { j : keys()[j] == keys()[i] }.
+  * text_fewer_positional / text_fewer_byname: text("SELECT <list>, b.id, a.id, b.x ...").columns(...) declaring only <list>
+    (positionally, by Column objects: P(E_i) = {i}) or by name in another order.
+  In both, a string that names two positions with different values must raise, whatever the relation between the number
+  of distinct names and the number of compiled columns (the failure records that relation as `diag`).
+  Stub description for these: the rendered name (ResultColumn.keyname) of compiled columns, the bare column names for what
+  a fragment / undeclared column yields.
 """
 import itertools
 import json
@@ -42,6 +56,23 @@ POOL = ["a.id", "a.x", "a.a_very_long_column_name_one", "a.y", "b.id", "b.x", "b
 POOL_VALUES = dict(VALUES, **{"a.x+b.x": 80, "a.x.label(y)": 20, "b.id.label(id)": 50, "a.y.label(a_x)": 40,
                                 "b.x.label(a_very_long_label_name_for_b_x)": 60, "literal_column(b.x+1)": 61, "a.y+1": 41})
 SHAPES = ["plain", "labels", "dup", "subquery", "cte", "union", "text_positional", "text_byname", "mixed_text"]
+# shapes whose cursor.description has MORE columns than the compiled statement knows about: a textual fragment that the
+# database expands to several columns, placed before / after the select list, and TextualSelects that declare only a prefix /
+# a subset of what the SQL returns.  fragment kind -> [(value name, name in cursor.description)] in database order
+A_COLS = [("a.id", "id"), ("a.x", "x"), ("a.a_very_long_column_name_one", "a_very_long_column_name_one"), ("a.y", "y")]
+B_COLS = [("b.id", "id"), ("b.x", "x"), ("b.a_very_long_column_name_one", "a_very_long_column_name_one"), ("b.a_id", "a_id")]
+FRAGMENTS = {
+    "lc_star": ("literal_column", "*", A_COLS + B_COLS),
+    "text_star": ("text", "*", A_COLS + B_COLS),
+    "lc_a_star": ("literal_column", "a.*", A_COLS),
+    "text_b_star": ("text", "b.*", B_COLS),
+    "text_multi": ("text", "a.id, b.id, b.x AS y", [("a.id", "id"), ("b.id", "id"), ("b.x", "y")]),
+    "lc_multi": ("literal_column", "b.a_id, a.y AS a_id", [("b.a_id", "a_id"), ("a.y", "a_id")]),
+}
+FRAG_SHAPES = ["frag_%s:%s" % (pos, k) for k in FRAGMENTS for pos in ("first", "last")]
+TEXT_EXTRAS = [("b.id", "id"), ("a.id", "id"), ("b.x", "x")]        # returned by the SQL, not declared with .columns()
+WIDE_SHAPES = FRAG_SHAPES + ["text_fewer_positional", "text_fewer_byname"]
+WIDE_DRIVERS = ["sqlite", "stub:oracle", "stub:postgresql"]
 STYLES = ["NONE", "TABLENAME_PLUS_COL", "DISAMBIGUATE_ONLY"]
 STUB_DIALECTS = ["postgresql", "oracle", "mssql", "mysql", "sqlite"]
 
@@ -104,13 +135,56 @@ def style_of(name):
 
 
 def build_statement(shape, names, style, dialect_for_text=None):
-    """-> (statement, [(position, key-expression objects that denote it)], value names per position) or None when the
-    shape does not apply to this select list"""
-    from sqlalchemy import select, union_all, text, Integer, exc as sa_exc
+    """-> (statement, key-expression object per result position (None: produced by text), value name per result position
+    [, description plan per result position for the stub: ("rc", compiled result column index) | ("lit", name)]) or None
+    when the shape does not apply to this select list"""
+    from sqlalchemy import select, union_all, text, literal_column, Integer, exc as sa_exc
     from sqlalchemy.sql.elements import Label
     exprs = [build_expr(n) for n in names]
     vals = list(names)
     st = style_of(style)
+    if shape in WIDE_SHAPES:
+        plan = [("rc", i) for i in range(len(exprs))]
+        if shape.startswith("frag_"):
+            pos, kind = shape[5:].split(":")
+            ctor, sql, expansion = FRAGMENTS[kind]
+            frag = literal_column(sql) if ctor == "literal_column" else text(sql)
+            fvals = [v for v, _ in expansion]
+            if pos == "first":
+                stmt = select(frag, *exprs)
+                keyobjs = [None] * len(fvals) + exprs
+                vals = fvals + vals
+                plan = [("lit", n) for _, n in expansion] + [("rc", i + 1) for i in range(len(exprs))]
+            else:
+                stmt = select(*exprs, frag)
+                keyobjs = exprs + [None] * len(fvals)
+                vals = vals + fvals
+                plan = plan + [("lit", n) for _, n in expansion]
+            stmt = stmt.select_from(from_clause()).set_label_style(st)
+            ncompiled = len(exprs) + 1
+        else:
+            if not names or not all(n in VALUES for n in names):
+                return None
+            extras = [v for v, _ in TEXT_EXTRAS]
+            if shape == "text_fewer_positional":
+                sql = "SELECT " + ", ".join(list(names) + extras) + " FROM a JOIN b ON a.id < b.a_id"
+                stmt = text(sql).columns(*exprs)
+                keyobjs = exprs + [None] * len(extras)
+                vals = vals + extras
+                plan = plan + [("lit", n) for _, n in TEXT_EXTRAS]
+            else:
+                if len({n.split(".")[1] for n in names}) != len(names):
+                    return None
+                order = list(reversed(names))
+                sql = "SELECT " + ", ".join(order + extras) + " FROM a JOIN b ON a.id < b.a_id"
+                stmt = text(sql).columns(**{n.split(".")[1]: Integer for n in names})
+                keyobjs = [None] * (len(names) + len(extras))
+                vals = order + extras
+                plan = [("lit", n.split(".")[1]) for n in order] + [("lit", n) for _, n in TEXT_EXTRAS]
+            ncompiled = len(names)
+        return stmt, keyobjs, vals, plan, ncompiled
+    if not names:
+        return None
     if shape == "plain":
         stmt = select(*exprs).select_from(from_clause()).set_label_style(st)
         keyobjs = exprs
@@ -229,6 +303,12 @@ def check_row(row, keys, keyobjs, vals, stub, explicit_labels, desc_base):
         if keys[i] != lab:
             fails.append(dict(desc_base, clause="label-key", key="keys()[%d]" % i, expected=lab, got=keys[i]))
     todo = [(k, positions_of(k, keyobjs), "object:%s" % type(k).__name__) for k in candidate_keys(keyobjs)]
+    name_matched = desc_base["shape"].startswith("frag_")
+    if name_matched:
+        # a select() with a textual fragment: the database decides how many columns the fragment yields, so compiled columns
+        # are matched to cursor.description BY NAME (documented); an object key therefore denotes every position that carries
+        # the name rendered for it (= keys()[its own position], DBAPI contract)
+        todo = [(k, sorted({j for i in pos for j in range(n) if keys[j] == keys[i]}), kind) for k, pos, kind in todo]
     todo += [(s, [i for i in range(n) if keys[i] == s], "string") for s in dict.fromkeys(keys)]
     nontrivial = 0
     for key, pos, kind in todo:
@@ -239,7 +319,10 @@ def check_row(row, keys, keyobjs, vals, stub, explicit_labels, desc_base):
             nontrivial += 1
         if len(pos) == 0:
             # the element under a label: the row may not know it, but it must never give another position's value
-            lp = [expect[i] for i in label_positions_of(key, keyobjs)]
+            lpos = label_positions_of(key, keyobjs)
+            if name_matched:
+                lpos = sorted({j for i in lpos for j in range(n) if keys[j] == keys[i]})
+            lp = [expect[i] for i in lpos]
             if got[0] == "value" and got[1] not in lp:
                 fails.append(dict(desc_base, clause="lookup", key_kind=kind, key=str(key), positions=pos, expected=["no-such-column-or-value-of", lp], got=got, wrong_value=True))
             continue
@@ -254,7 +337,12 @@ def check_row(row, keys, keyobjs, vals, stub, explicit_labels, desc_base):
             want = ["ambiguous"]
         if not ok:
             diag = []
-            if isinstance(key, str):
+            if "ncompiled" in desc_base and want == ["ambiguous"]:
+                # the precondition under which the duplicate scan of CursorResultMetaData.__init__ is skipped by design
+                # (it compares the number of distinct names with the number of compiled columns)
+                diag.append("distinct-names-%s-compiled-columns" % (
+                    "equal" if len(set(keys)) == desc_base["ncompiled"] else "more-than" if len(set(keys)) > desc_base["ncompiled"] else "fewer-than"))
+            elif isinstance(key, str):
                 if len(set(keys)) < len(keys):
                     diag.append("keys-contain-duplicate-names")
                 for j, vn in enumerate(vals):
@@ -280,8 +368,10 @@ def run_case_sqlite(shape, names, style, label_length):
         built = build_statement(shape, names, style)
         if built is None:
             return None
-        stmt, keyobjs, vals = built
+        stmt, keyobjs, vals = built[:3]
         base = dict(driver="sqlite", shape=shape, select_list=list(names), label_style=style, label_length=label_length, execution=execution)
+        if len(built) > 3:
+            base["ncompiled"] = built[4]
         try:
             res = conn.execute(stmt)
             keys = list(res.keys())
@@ -313,7 +403,7 @@ def stub_dialect(name, label_length):
     return _ENV[key]
 
 
-def stub_result(dialect, compiled, invoked_statement, cache_hit, rows):
+def stub_result(dialect, compiled, invoked_statement, cache_hit, rows, plan=None):
     """a real CursorResult over a stub cursor: description replays the compiled rendered names"""
     from sqlalchemy.engine import cursor as _cursor
     from sqlalchemy.engine.interfaces import CacheStats
@@ -331,6 +421,8 @@ def stub_result(dialect, compiled, invoked_statement, cache_hit, rows):
                                 compiled._ad_hoc_textual, compiled._loose_column_name_matching)     # as DefaultExecutionContext._init_compiled
     ctx.isinsert = ctx.isupdate = ctx.isdelete = False
     names = [rc.name for rc in compiled._result_columns]
+    if plan is not None:        # what a database reports when a fragment expands to several columns / the SQL returns more than declared
+        names = [compiled._result_columns[x].keyname if how == "rc" else x for how, x in plan]   # keyname = the name as rendered in the SQL text
     if dialect.requires_name_normalize:
         names = [dialect.denormalize_name(n) for n in names]
     desc = [(n, None, None, None, None, None, None) for n in names]
@@ -349,14 +441,17 @@ def run_case_stub(shape, names, style, label_length, dialect_name):
         built = build_statement(shape, names, style)
         if built is None:
             return None
-        stmt, keyobjs, vals = built
+        stmt, keyobjs, vals = built[:3]
+        plan = built[3] if len(built) > 3 else None
         base = dict(driver="stub:" + dialect_name, shape=shape, select_list=list(names), label_style=style, label_length=label_length, execution=execution)
+        if plan is not None:
+            base["ncompiled"] = built[4]
         try:
             if compiled is None:
                 compiled = stmt.compile(dialect=d)
                 compiled._cached_metadata = None
-            nrc = len(compiled._result_columns)
-            res, _ = stub_result(d, compiled, stmt, execution == 2, [tuple(100 + vals.index(vals[i]) for i in range(nrc))])
+            nrc = len(compiled._result_columns) if plan is None else len(plan)
+            res, _ = stub_result(d, compiled, stmt, execution == 2, [tuple(100 + vals.index(vals[i]) for i in range(nrc))], plan)
             keys = list(res.keys())
             row = res.first()
         except Exception as ex:  # noqa: BLE001
@@ -388,7 +483,8 @@ def select_lists(tier, seed):
 
 
 def _work(task):
-    drivers, lists = task
+    drivers, lists, wide_max = task
+    wide_drivers = WIDE_DRIVERS if wide_max > 2 else WIDE_DRIVERS[:2]       # quick: SQLite + the Oracle stub (name normalisation)
     evals = cases = skipped = nontriv_cases = 0
     fails = {}
     nfails = 0
@@ -397,8 +493,9 @@ def _work(task):
         for driver in drivers:
             for ll in (None, 10):
                 for style in STYLES:
-                    for shape in SHAPES:
-                        if shape in ("subquery", "cte", "text_positional", "text_byname") and style != "NONE":
+                    wide = WIDE_SHAPES if driver in wide_drivers and len(names) <= wide_max else []
+                    for shape in (SHAPES if names else []) + wide:
+                        if shape in ("subquery", "cte", "text_positional", "text_byname", "text_fewer_positional", "text_fewer_byname") and style != "NONE":
                             continue        # label style of the outer statement is irrelevant / not applicable for these
                         case = dict(driver=driver, shape=shape, select_list=names, label_style=style, label_length=ll)
                         r = run_case(case)
@@ -422,11 +519,12 @@ def _work(task):
 
 def run(run, tier, seed, args):
     t0 = time.time()
-    lists = select_lists(tier, seed)
+    lists = [[]] + select_lists(tier, seed)     # the empty select list: wide shapes only (the fragment alone)
     drivers = ["sqlite"] + ["stub:" + d for d in STUB_DIALECTS]
     nproc = min(16, multiprocessing.cpu_count())
     chunk = max(1, len(lists) // (nproc * 8))
-    tasks = [(drivers, lists[i:i + chunk]) for i in range(0, len(lists), chunk)]
+    wide_max = 2 if tier != "thorough" else 3
+    tasks = [(drivers, lists[i:i + chunk], wide_max) for i in range(0, len(lists), chunk)]
     with multiprocessing.get_context("fork").Pool(nproc) as pool:
         results = pool.map(_work, tasks)
     evals = sum(r["evals"] for r in results)
@@ -452,6 +550,7 @@ def run(run, tier, seed, args):
                            reason="row lookup returned something other than the value of the expression the key denotes (or raised / failed to raise)"))
     samples = []
     for case in (dict(driver="sqlite", shape="plain", select_list=["a.x", "b.x", "a.y.label(a_x)"], label_style="NONE", label_length=10),
+                 dict(driver="sqlite", shape="frag_last:lc_star", select_list=["b.x.label(a_very_long_label_name_for_b_x)"], label_style="TABLENAME_PLUS_COL", label_length=None),
                  dict(driver="stub:oracle", shape="dup", select_list=["a.a_very_long_column_name_one", "b.a_very_long_column_name_one"], label_style="TABLENAME_PLUS_COL", label_length=10)):
         built = build_statement(case["shape"], case["select_list"], case["label_style"])
         r = run_case(case)
@@ -463,13 +562,16 @@ def run(run, tier, seed, args):
         evaluations=evals, cases=cases, distinct_nontrivial=nontriv,
         rule="cases = (driver, shape, select list, label style, label_length), each built and run twice; select lists are all ordered selections of "
              "1..2 of the %d pool expressions plus %s ordered triples; one evaluation = one key lookup / positional / keys() clause on a real row; a case is "
-             "non-trivial when at least one of its keys denotes two or more positions (name / label / object collision); distinct by construction" % (
-                 len(POOL), "all" if tier == "thorough" else "a seeded 1/9 sample of the"),
+             "non-trivial when at least one of its keys denotes two or more positions (name / label / object collision); distinct by construction. "
+             "The wide shapes (cursor.description longer than the compiled column list) run for select lists of 0..%d expressions on drivers %s" % (
+                 len(POOL), "all" if tier == "thorough" else "a seeded 1/9 sample of the", wide_max, WIDE_DRIVERS if wide_max > 2 else WIDE_DRIVERS[:2]),
         samples=samples, exhaustive=tier == "thorough",
         scope="SELECTs over a JOIN b (colliding column names id / x / a_very_long_column_name_one, 27-character names, labels colliding with column names and "
               "with table-qualified labels, anonymous expressions, literal_column) x shapes %s x label styles %s x label_length in {None, 10} x drivers: "
               "in-memory SQLite (every cell a distinct value; second execution through the compiled cache / _adapt_to_context) and a stub cursor replaying the "
-              "compiled names for the %s dialect objects; select lists: %d" % (SHAPES, STYLES, STUB_DIALECTS, len(lists)),
+              "compiled names for the %s dialect objects; select lists: %d; wide shapes %s: textual fragments %s placed first / last in the select "
+              "list, TextualSelect declaring a positional prefix / a by-name subset of what the SQL returns (undeclared %s)" % (
+                  SHAPES, STYLES, STUB_DIALECTS, len(lists), WIDE_SHAPES, {k: v[1] for k, v in FRAGMENTS.items()}, [v for v, _ in TEXT_EXTRAS]),
         contract_failures=nfails, wall_s=round(time.time() - t0, 1))
     run.assumptions += [
         "DBAPI contract: cursor returns columns in SELECT-list order, description[i][0] is the rendered name of column i (stub: de-normalised for Oracle)",
@@ -484,8 +586,11 @@ def replay(data):
     if r is None:
         print("REPLAY: case not applicable", case)
         return 3
-    if r[0]:
-        for f in r[0][:5]:
+    fails = r[0]
+    if "clause" in case:     # the recorded lookup only: the same case may also show a known finding on another key
+        fails = [f for f in fails if (f["clause"], f.get("key"), f.get("key_kind")) == (case["clause"], case.get("key"), case.get("key_kind"))]
+    if fails:
+        for f in fails[:5]:
             print(f"REPLAY-FAILS {data.get('function')} case={ {k: case[k] for k in ('driver', 'shape', 'select_list', 'label_style', 'label_length')} } "
                   f"execution={f['execution']} clause={f['clause']} key={f.get('key')} expected={f.get('expected')} got={f.get('got')}")
         return 1
